@@ -14,8 +14,9 @@ from rnaverif.runner import D, HarnessError, REPO, ShardResult, VERIF, WORK_DIR,
 PROP_ID = "C14"
 LEVEL = "exploration"
 RULE = (
-    "Inputs: corpus structure files (8 small ones quick, all parseable ones thorough) and Hypothesis-drawn secondary "
-    "structures with >=2 knotted components (40 quick / 400 thorough). For each input a FRESH interpreter per "
+    "Inputs: corpus structure files (13 quick incl. quadruplexes with base multiplets, all parseable ones thorough), "
+    "Hypothesis-drawn secondary structures with >=2 knotted components (40 quick / 400 thorough) and Hypothesis-drawn "
+    "pair lists with multiplets/conflicts/duplicates mapped onto small corpus structures (24 quick / 400 thorough). For each input a FRESH interpreter per "
     "PYTHONHASHSEED (quick: 0, 1, 2 and one VERIF_SEED-derived value; thorough: 0, 1, 2, 3, 42, 12345, 2**32-1 and "
     "one derived value) computes SHA-256 of every artefact twice in-process: interaction lists, write_json bytes, "
     "write_csv bytes, BPSEQ, dot-bracket, extended dot-bracket, the ORDERED list of all dot-brackets (BpSeq and "
@@ -31,7 +32,8 @@ ASSUMPTIONS = [
 ]
 
 QUICK_FILES = ["1A1T_1_B.cif", "1DFU_1_M-N.cif", "1E7K_1_C.cif", "1HMH_1_E.cif", "4WTI_1_T-P.cif", "184D.cif",
-               "488d.pdb", "1ATO.pdb", "6INQ.cif", "8btk_B7.cif"]
+               "488d.pdb", "1ATO.pdb", "6INQ.cif", "8btk_B7.cif", "6FC9.cif", "1JJP.cif",
+               "q-ugg-5k-salt_400-500ns_frame1065.pdb"]
 
 
 def hash_seeds(tier, seed):
@@ -149,6 +151,23 @@ def collect_structures(n, seed):
     return uniq
 
 
+def collect_mapping_cases(n, seed):
+    import hypothesis
+    from hypothesis import HealthCheck, Phase, given, settings
+    from rnaverif.props import c06
+
+    got = []
+
+    @hypothesis.seed(seed)
+    @settings(max_examples=n, database=None, deadline=None, suppress_health_check=list(HealthCheck), phases=[Phase.generate])
+    @given(c06.st_cases(["1HMH_1_E.cif", "6INQ.cif", "1DFU_1_M-N.cif", "1E7K_1_C.cif", "184D.cif"]))
+    def collect(c):
+        got.append(c)
+
+    collect()
+    return got
+
+
 def plan(tier, seed):
     specs = []
     if tier == "quick":
@@ -162,6 +181,9 @@ def plan(tier, seed):
         specs.append({"kind": "file", "file": f, "tier": tier, "seed": seed})
     for k in range(nstruct // batch):
         specs.append({"kind": "bpseq", "n": batch, "gen_seed": seed * 1000 + k, "tier": tier, "seed": seed})
+    nmap, mbatch = (24, 12) if tier == "quick" else (400, 25)
+    for k in range(nmap // mbatch):
+        specs.append({"kind": "mapping", "n": mbatch, "gen_seed": seed * 1000 + 500 + k, "tier": tier, "seed": seed})
     return specs
 
 
@@ -173,6 +195,10 @@ def run_shard(spec) -> ShardResult:
         inp = {"id": spec["file"], "kind": "file", "path": os.path.join(REPO, "tests", spec["file"])}
         inputs = [inp]
         tag = "f" + spec["file"].replace(".", "_")
+    elif spec["kind"] == "mapping":
+        cases = collect_mapping_cases(spec["n"], spec["gen_seed"])
+        inputs = [{"id": f"m{spec['gen_seed']}_{k}", "kind": "mapping", "case": c} for k, c in enumerate(cases)]
+        tag = f"m{spec['gen_seed']}"
     else:
         structs = collect_structures(spec["n"], spec["gen_seed"])
         inputs = [{"id": f"s{spec['gen_seed']}_{k}", "kind": "bpseq", "text": ssref.bpseq_text(s[0], s[1]),
@@ -186,6 +212,11 @@ def run_shard(spec) -> ShardResult:
             nt = m.get("n_all", 0) >= 2 or (m.get("n_bp", 0) >= 1 and m.get("n_st", 0) >= 1 and m.get("n_bphbr", 0) >= 1)
             labs = ["file"] + (["all_dot_brackets>=2"] if m.get("n_all", 0) >= 2 else [])
             cj = {"file": spec["file"], **m}
+        elif inp["kind"] == "mapping":
+            ents = inp["case"].get("entries", [])
+            nt = len(ents) >= 3
+            labs = ["mapping-over-drawn-pair-list"]
+            cj = {"mapping": {k: v for k, v in inp["case"].items() if k != "entries"}, "n_entries": len(ents)}
         else:
             nt = m.get("n_all", 0) >= 2
             labs = ["bpseq"] + (["all_dot_brackets>=2"] if nt else [])
@@ -202,10 +233,10 @@ def run_shard(spec) -> ShardResult:
                 art = d.sig.split(":")[1]
                 other = int(what.split(" vs ")[1].split()[0])
                 try:
-                    what += "; " + explain({k: v for k, v in inp.items() if k in ("id", "kind", "path", "text")}, art, [seeds[0], other])
+                    what += "; " + explain({k: v for k, v in inp.items() if k in ("id", "kind", "path", "text", "case")}, art, [seeds[0], other])
                 except Exception:
                     pass
-            case = {"input": {k: v for k, v in inp.items() if k in ("id", "kind", "text", "seq", "pairs")}, "seeds": seeds}
+            case = {"input": {k: v for k, v in inp.items() if k in ("id", "kind", "text", "seq", "pairs", "case")}, "seeds": seeds}
             if inp["kind"] == "file":
                 case["input"]["file"] = spec["file"]
             res.failures.append({"sig": d.sig, "what": what, "case": case})
